@@ -20,13 +20,16 @@ Inductive citems (Pc Ph : list token -> Prop) (l : language) : nat -> list token
     citems Pc Ph l (off + 1 + length words + length cond + 1) body ds1 ->
     citems Pc Ph l (off + 1 + length words + length cond + 1 + length body + 1) r ds2 ->
     citems Pc Ph l off (kw :: words ++ cond ++ o :: body ++ c :: r) (ds1 ++ ds2)
+| ci_label off kw colon r ds :
+    is_keyword kw = true -> is_operator colon s_colon = true ->
+    citems Pc Ph l (off + 2) r ds -> citems Pc Ph l off (kw :: colon :: r) ds
 | ci_block off o body c r ds1 ds2 :
     is_lbrace o = true -> is_rbrace c = true ->
     citems Pc Ph l (off + 1) body ds1 ->
     citems Pc Ph l (off + 1 + length body + 1) r ds2 ->
     citems Pc Ph l off (o :: body ++ c :: r) (ds1 ++ ds2)
 | ci_init off pre o flat c post semi r ds :
-    forallb plain pre = true -> is_lbrace o = true -> forallb plain flat = true -> is_rbrace c = true ->
+    forallb plain pre = true -> is_lbrace o = true -> inner flat -> is_rbrace c = true ->
     inner post -> is_symbol semi semicolon = true ->
     citems Pc Ph l (off + length pre + 1 + length flat + 1 + length post + 1) r ds ->
     citems Pc Ph l off (pre ++ o :: flat ++ c :: post ++ semi :: r) ds
@@ -74,6 +77,7 @@ Proof.
   fix IH 4. intros off ts ds H.
   destruct H as [off|off s r ds Hs Hr
                 |off kw words cond o body c r ds1 ds2 Hkw Hwords Hcond Hnt Ho Hc Hb Hr
+                |off kw colon r ds Hkw Hcolon Hr
                 |off o body c r ds1 ds2 Ho Hc Hb Hr
                 |off pre o flat c post semi r ds Hpre Ho Hflat Hc Hpost Hsemi Hr
                 |off a tail o body c post semi r ds1 ds2 Hjs Hane Hop Hlast Htail Ho Hc Hpost Hsemi Hb Hr
@@ -82,6 +86,7 @@ Proof.
   - apply ci_nil.
   - apply ci_stmt; [exact Hs | apply IH; exact Hr].
   - apply ci_ctrl; try assumption; apply IH; assumption.
+  - apply ci_label; try assumption. apply IH; exact Hr.
   - apply ci_block; try assumption; apply IH; assumption.
   - apply ci_init; try assumption. apply IH; exact Hr.
   - apply ci_cb; try assumption; apply IH; assumption.
@@ -94,5 +99,5 @@ Qed.
 Lemma citems_weaken (Pc Ph Pc' Ph' : list token -> Prop) l off ts ds :
   (forall cond, Pc cond -> Pc' cond) -> (forall hd, Ph hd -> Ph' hd) ->
   citems Pc Ph l off ts ds -> citems Pc' Ph' l off ts ds.
-Proof. intros HP HQ. induction 1; [apply ci_nil | apply ci_stmt | apply ci_ctrl | apply ci_block | apply ci_init | apply ci_cb | apply ci_new_items | apply ci_new_flat | apply ci_func]; auto. Qed.
+Proof. intros HP HQ. induction 1; [apply ci_nil | apply ci_stmt | apply ci_ctrl | apply ci_label | apply ci_block | apply ci_init | apply ci_cb | apply ci_new_items | apply ci_new_flat | apply ci_func]; auto. Qed.
 
